@@ -75,6 +75,32 @@ pub fn one<S: Src, const P: u8, const L: usize, const NT: usize, const NV: usize
             cov!(s, P, C02, answered.is_some(), "proc: a request with a good PEC is answered");
         }
     }
+    // ---------------------------------------------------------------- C03 / C04: the response is an encoded packet too
+    if P == C03 || P == C04 {
+        if let Some(n) = answered {
+            let pec = match n {
+                14 => pec_ok_n::<14>(&out),
+                15 => pec_ok_n::<15>(&out),
+                16 => pec_ok_n::<16>(&out),
+                17 => pec_ok_n::<17>(&out),
+                18 => pec_ok_n::<18>(&out),
+                19 => pec_ok_n::<19>(&out),
+                21 => pec_ok_n::<21>(&out),
+                29 => pec_ok_n::<29>(&out),
+                _ => n >= 2 && n <= OUT && out[n - 1] == ref_crc8(&out[..n - 1]),
+            };
+            chk!(s, P, C03, pec, "the response written by process_packet ends with the PEC of all preceding bytes");
+            chk!(s, P, C04, n >= 13 && n <= OUT && out[1] == 0x0F && out[2] as usize == n - 4, "response: command code 0x0F, byte count = reported length - 4");
+            chk!(s, P, C04, out[0] & 1 == 0 && out[3] == (cfg.addr << 1) | 1, "response: write bit clear; source address byte = own address << 1 | 1");
+            if P == C04 {
+                let k = s.usize();
+                s.assume(k >= 3 && k <= OUT);
+                chk!(s, P, C04, k > n || ctx.get_length(&out[..k]) == Ok(n), "get_length on every prefix of the response returns the reported length");
+            }
+            cov!(s, P, C03, (b[9] & 0x1F) != 0, "proc: request with a non-zero instance ID answered");
+            cov!(s, P, C04, n >= 16, "proc: response probed");
+        }
+    }
     // ---------------------------------------------------------------- C10
     if P == C10 {
         cov!(s, P, C10, answered.is_some(), "proc: a request was answered");
